@@ -151,10 +151,14 @@ fn run_life(pool: &dyn Pool, nf: usize, life: &Value) {
                             let (cls, _, _) = panics::classify(&msg);
                             // will_execute stores its verifier before the signature is looked at
                             let kept = spec.n >= 0;
+                            // "caught": the caller catches the panic of the refused / failed installation and goes on using the injector
+                            let caught = st.get("caught").and_then(|x| x.as_bool()).unwrap_or(false);
                             emit(json!({"ev":"InstallEnd","outcome":"panic","cls":cls,"msg":msg,"lock":lock_state(),
-                                "live":interpose::owned_live(),"verifier_kept":kept,
+                                "live":interpose::owned_live(),"verifier_kept":kept,"caught":caught,
                                 "quiet_mmap_fails":interpose::QUIET_COUNT.swap(0, SeqCst)}));
-                            resume_unwind(p);
+                            if !caught {
+                                resume_unwind(p);
+                            }
                         }
                     }
                 }
